@@ -34,7 +34,10 @@ def family(rng, k):
     from ..e2e import sim2t  # noqa: F401
     dur = nsteps * base["dt"]
     inwin = lambda r: 0 <= ((base["start"] - r["t"]) if base["rev"] else (r["t"] - base["start"])) < dur or base["cont"]
-    for f in rng.sample(farms, min(2, len(farms) - 1)) if len(farms) > 1 else []:
+    # remove the rows whose particles die (their absence must not change anybody else), then a random other row
+    killed = [f for _, f in base["killfarm"]]
+    cand = list(dict.fromkeys(killed + rng.sample(farms, len(farms))))[: min(3, len(farms) - 1)]
+    for f in cand if len(farms) > 1 else []:
         if not any(inwin(r) for r in base["rows"] if r["id"] != f):
             continue
         tf = next(r["t"] for r in base["rows"] if r["id"] == f)
